@@ -1,22 +1,23 @@
 (* C02 — no false failures; the failure report is exactly the uncertified pairs. *)
 Require Import Base Extracted Criteria Search AuditGraph DepGraph Resolve Witness.
-Require Import SearchProofs AuditGraphProofs ResolveProofs ResolveTheorems.
+Require Import SearchProofs AuditGraphProofs ResolveProofs ResolveTheorems FuelProofs.
 Local Open Scope N_scope.
 
-(* The hypothesis [no_fuel inp s = true] says the model's fuelled search did not
-   run out of fuel on this input; it is executable and is evaluated on every
-   correspondence case (the implementation has no fuel).  Hence `_partial`: the
-   unconditional statement needs the fuel-sufficiency lemma (see DESIGN.md). *)
+(* The model's search loops carry explicit fuel (the implementation has none).  The
+   fuel [search_fuel g] provably always suffices (proofs/FuelProofs.v:
+   search_never_runs_out, by a potential-function argument; ag_search_never_runs_out,
+   using that a failed backward search excludes a successful forward one), so the
+   theorems below are unconditional. *)
 
-Theorem C02_failures_exact_partial :
+Theorem C02_failures_exact :
   forall inp s fs,
-    r_conclusion (resolve inp s) = FailForVet fs -> no_fuel inp s = true ->
+    r_conclusion (resolve inp s) = FailForVet fs ->
     forall i cf, In (i, cf) fs ->
       exists p, pkg_at inp s i p /\ pk_third_party p = true /\
         forall c, cs_has c cf = true <->
           (c < N.of_nat (ct_len (st_criteria s)) /\ cs_has c (required_of inp s i) = true /\
            ~ certified (st_criteria s) (store_for s (pk_name p)) c (pk_version p)).
-Proof. exact failures_exact. Qed.
+Proof. intros inp s fs H. exact (failures_exact inp s fs H (no_fuel_always inp s)). Qed.
 
 Theorem C02_failures_complete :
   forall inp s fs,
@@ -27,14 +28,14 @@ Theorem C02_failures_complete :
       exists cf, In (i, cf) fs /\ cs_has c cf = true.
 Proof. exact failures_complete. Qed.
 
-Theorem C02_no_false_failure_partial :
-  forall inp s, no_fuel inp s = true ->
+Theorem C02_no_false_failure :
+  forall inp s,
     (forall i p, pkg_at inp s i p -> pk_third_party p = true ->
        violation_conflicts (st_criteria s) (store_for s (pk_name p)) = [] /\
        forall c, c < N.of_nat (ct_len (st_criteria s)) -> cs_has c (required_of inp s i) = true ->
          certified (st_criteria s) (store_for s (pk_name p)) c (pk_version p)) ->
     exists a b c0, r_conclusion (resolve inp s) = Success a b c0.
-Proof. exact success_complete. Qed.
+Proof. intros inp s. exact (success_complete inp s (no_fuel_always inp s)). Qed.
 
 (* the exit status: non-zero exactly when the conclusion is not Success *)
 Theorem C02_has_errors :
@@ -44,12 +45,17 @@ Proof.
     try discriminate; try (destruct H as [a [b [c H]]]; discriminate); eauto.
 Qed.
 
+(* the fuel never runs out, for any graph and store *)
+Theorem C02_fuel_is_an_artefact : forall inp s, no_fuel inp s = true.
+Proof. exact no_fuel_always. Qed.
+
 Example C02_nonvacuous :
   exists fs, r_conclusion (resolve w_graph w_store_failing) = FailForVet fs /\
     no_fuel w_graph w_store_failing = true /\ In (0%nat, 3) fs.
 Proof. vm_compute. eexists. repeat split. left. reflexivity. Qed.
 
-Print Assumptions C02_failures_exact_partial.
+Print Assumptions C02_failures_exact.
 Print Assumptions C02_failures_complete.
-Print Assumptions C02_no_false_failure_partial.
+Print Assumptions C02_no_false_failure.
+Print Assumptions C02_fuel_is_an_artefact.
 Print Assumptions C02_has_errors.
